@@ -222,7 +222,7 @@ class Fn:
 _STR_METHODS = {'strip', 'rstrip', 'lstrip', 'split', 'partition', 'join', 'startswith', 'endswith',
                 'replace', 'lower', 'upper', 'isdigit', 'isalpha', 'find', 'count', 'format'}
 _LIST_METHODS = {'append', 'extend', 'index', 'copy', 'pop', 'insert', 'count', 'remove'}
-_DICT_METHODS = {'items', 'keys', 'values', 'get', 'copy', 'setdefault', 'pop', 'update'}
+_DICT_METHODS = {'items', 'keys', 'values', 'get', 'copy', 'setdefault', 'pop', 'update', 'clear'}
 _SET_METHODS = {'add', 'remove', 'discard', 'copy'}
 _PAT_METHODS = {'sub', 'findall', 'match', 'search', 'fullmatch'}
 _RE_FUNCS = {'compile', 'sub', 'findall', 'match', 'search'}
